@@ -362,7 +362,8 @@ package protocol
 //@ func (*RecordSet).readFromVersion2
 //@   requires 0 <= d.remain && d.remain <= 0x7fffffff
 //@   option noframe
-//@   option only pre make alloc slice index
+//@   option only pre make alloc slice index overflow
+//@   option overflow
 //@   option upto "for i := range records {"
 //@   option allocbound recordsLength
 //@   modifies heap
